@@ -365,7 +365,9 @@ def save_hdf5(h5path, indent, user_rate, user_name, user_comment, h5mode="a"):
                 elif key in ["preprocessing_options", "method_kws"]:
                     val = json.dumps(val)
                 elif key == "range_x":
-                    val = str(val)
+                    # (plain floats: `str` of numpy scalars or arrays
+                    # cannot be parsed by `load_hdf5`)
+                    val = str([float(vi) for vi in val])
                 out.attrs["fit {}".format(key)] = val
 
             out.create_dataset("fit",
